@@ -424,6 +424,8 @@ def run_native(top, registry, state, extra_check=None):
             exc = e
     except Exception as e:  # noqa: BLE001
         exc = e
+    except asyncio.CancelledError as e:  # a BaseException: a stub may cancel the function under contract
+        exc = e
     finally:
         try:
             signal.setitimer(signal.ITIMER_REAL, 0)
